@@ -127,6 +127,17 @@ func (w *World) opManPush(op Op) *Resp {
 				props = []string{"C01", "C04"}
 			}
 			w.x.viol(props, "manifest.accepted-invalid", shape, fmt.Sprintf("PUT %s/manifests/%s (Content-Type %q, %d bytes, known length %v) acknowledged although: %s", repo, ref, ct, len(body), op.Len != "unknown", verdict.reason))
+			own := false
+			for _, p := range props {
+				own = own || p == w.x.p.Prop
+			}
+			if !own && strings.HasPrefix(verdict.reason, "references content missing") && verdict.view.ok && verdict.digest != "" {
+				// the check of another property reports this. This run follows the server so that it can go on watching its own
+				// property (what the accepted manifest is then served as)
+				w.m.applyManifestPut(repo, verdict, body, w.now())
+				w.x.resync()
+				return r
+			}
 			w.x.stop = true
 			return r
 		}
